@@ -17,6 +17,7 @@ WritesWithoutInternalError / WrittenTextReadable by the same spec.
 '''
 import json
 import os
+import shutil
 
 from pv import core, sem
 from pv import c01_gen as G
@@ -130,9 +131,17 @@ def _where_nodes(body):
 
 
 def _where_exprs(w):
-    '''(masks, assignments) of one WHERE construct'''
+    '''(masks, assignments) of one WHERE construct, including those of the
+    WHERE constructs nested in it'''
     masks = [w["mask"]] + [ew["mask"] for ew in w["elsewhere"] if ew["mask"]["k"] != "none"]
-    asgs = list(w["body"]) + [s for ew in w["elsewhere"] for s in ew["body"]]
+    asgs = []
+    for s in list(w["body"]) + [s for ew in w["elsewhere"] for s in ew["body"]]:
+        if s["k"] == "where":
+            m2, a2 = _where_exprs(s)
+            masks += m2
+            asgs += a2
+        else:
+            asgs.append(s)
     return masks, asgs
 
 
@@ -261,6 +270,18 @@ def m_where_carried(rec, clause, detail, finding):
     return False
 
 
+def m_where_nested(rec, clause, detail, finding):
+    '''a lowered WHERE contains another WHERE: the inner one becomes a complete
+    loop nest over all elements inside the outer element loop'''
+    if not clause.startswith("Reader"):
+        return False
+    for w in _lowered_wheres(rec):
+        inner = list(w["body"]) + [s for ew in w["elsewhere"] for s in ew["body"]]
+        if any(s["k"] == "where" for s in inner):
+            return True
+    return False
+
+
 def _pow_left_nested(body):
     for nd in G.walk(body):
         if nd.get("k") == "bin" and nd["op"] == "**" and nd["l"].get("k") == "bin" \
@@ -280,6 +301,7 @@ MATCHERS = {"where-nonunit-lower-bound": m_where_lower_bound,
             "where-reduction-reevaluated": m_where_reduction_reevaluated,
             "where-section-stride-ignored": m_where_stride,
             "where-loop-carried-read": m_where_carried,
+            "where-nested-runs-over-all-elements": m_where_nested,
             "left-nested-power-unparenthesised": m_pow_left}
 
 
@@ -327,6 +349,12 @@ def check_programs(out, progs, recs, batch=400, workers=None):
             detail = {"n_failing_inputs": len(wit), "witnesses": wit[:4],
                       "names": sorted({n for w in wit for n in w.get("names", [])})}
             out.violation(slim, cl, detail)
+    examples = {}
+    for fid, ex in out.known_examples.items():
+        c = ex["case"]
+        examples[fid] = {"id": c["id"], "clause": ex["clause"],
+                         "witness": (ex["detail"]["witnesses"] or [None])[0],
+                         "source": _body_text(c["source"]), "written": _body_text(c["written"])}
     cb = {}
     for r in recs:
         for kind in r["codeblocks"]:
@@ -339,11 +367,20 @@ def check_programs(out, progs, recs, batch=400, workers=None):
             "inputs": ninputs, "discarded_ub_inputs": sum(res.discards.values()),
             "failing_cases": len(res.fails), "status_counts": status,
             "unsupported": len(unsupported), "unsupported_samples": unsupported[:8],
-            "codeblocks_kept": cb, "exhaustive": False, "divergences": 0,
+            "codeblocks_kept": cb, "known_examples": examples, "exhaustive": False, "divergences": 0,
             "tlc_wall_s": round(res.wall, 1),
             "samples": [{"id": c["id"], "source": by_id[c["id"]][1]["source"],
                          "written": by_id[c["id"]][1]["written"]}
                         for c in ok3[:: max(1, len(ok3) // 3)][:3]]}
+
+
+def _body_text(text):
+    '''the executable part of routine s in a program text (evidence only)'''
+    if not text:
+        return text
+    lines = text.split("end subroutine s")[0].splitlines()
+    last = max(i for i, l in enumerate(lines) if "::" in l)
+    return "\n".join(l for l in lines[last + 1:] if l.strip())
 
 
 def corrupt(cases, how):
@@ -384,6 +421,13 @@ def run(tier):
         _PROGS = None
     nw = int(os.environ.get("C01_WORKERS", "0")) or None
     cov = check_programs(out, progs, recs, workers=nw)
+    cov["anchor_selftest"] = "skipped"
+    if os.environ.get("C01_ANCHOR", "1") != "0" and shutil.which("gfortran"):
+        from pv import c01_anchor
+        base = [p for p in progs if "random" not in p.tags]
+        rest = [p for p in progs if "random" in p.tags]
+        sample = base[::8] if tier == "quick" else base + rest[::10]
+        cov["anchor_selftest"] = c01_anchor.anchor(sample, workers=nw)
     cov["rule"] = ("one case = one generated program (reference pv-ast, PSyIR after reading, PSyIR "
                    "after writing and re-reading); non-trivial = read and written without error, "
                    "exported, and the reference is defined on at least one input")
@@ -396,5 +440,7 @@ def run(tier):
         "pv.c01_render (fully parenthesised), its meaning by spec/FortranSem.tla",
         "exporter pv.export trusted, fails closed (unsupported cases counted); WHERE code blocks "
         "are given their Fortran meaning by pv.c01_codeblock",
+        "anchor self-test (not deciding): a sample of the reference programs is compiled with "
+        "gfortran and its results compared with FortranSem's on a few inputs each",
         "module functions / named actual arguments of user routines are outside the exporter's "
         "subset and not generated"])
